@@ -66,6 +66,9 @@ type qScenario struct {
 	Msgs     []qMsg `json:"messages"`
 	// restart the queue (Close, then a new Queue on the same directory) once this many attempts have been made
 	RestartAfter []int `json:"restart_after,omitempty"`
+	// after a restart on a crash image (C02): the last recipient of every message fails temporarily in
+	// this many attempts of the recovering queue before it is accepted
+	RecoverTempFails int `json:"recover_temp_fails,omitempty"`
 	// limit of attempts running at the same time (0: 16)
 	Parallelism int `json:"max_parallelism,omitempty"`
 }
@@ -544,7 +547,6 @@ func qParseHeader(raw string) (textproto.Header, error) {
 
 func bufioReader(s string) *bufio.Reader { return bufio.NewReader(strings.NewReader(s)) }
 
-
 // qRecover starts a fresh queue on an existing spool directory (a crash
 // image) with a downstream target that accepts everything, runs it to
 // quiescence on the virtual clock and returns the history.
@@ -561,6 +563,21 @@ func qRecover(spool string, sc qScenario, horizon time.Duration) *qHistory {
 	}, func() error { return nil })
 	defer func() { log.DefaultLogger.Out = oldOut }()
 	plain := qScenario{MaxTries: sc.MaxTries, Partial: sc.Partial, Bounce: sc.Bounce}
+	if sc.RecoverTempFails > 0 {
+		later := &verifx.ErrNode{Kind: "smtp", Code: 451, Ench: [3]int{4, 0, 0}, Msg: "recovery: later"}
+		for _, m := range sc.Msgs {
+			pm := qMsg{ID: m.ID, Rcpts: m.Rcpts}
+			for a := 0; a < sc.RecoverTempFails && len(m.Rcpts) > 0; a++ {
+				last := m.Rcpts[len(m.Rcpts)-1]
+				if sc.Partial {
+					pm.Plans = append(pm.Plans, qPlan{Status: map[string]*verifx.ErrNode{last: later}})
+				} else {
+					pm.Plans = append(pm.Plans, qPlan{Rcpt: map[string]*verifx.ErrNode{last: later}})
+				}
+			}
+			plain.Msgs = append(plain.Msgs, pm)
+		}
+	}
 	synctest.Test(qT, func(t *testing.T) {
 		h.t0 = time.Now()
 		tgt := &qTarget{sc: &plain, h: h, attempts: map[string]int{}, partial: sc.Partial}
